@@ -6,7 +6,7 @@ CHECKS["C18"] = dict(
          "exactly-once, exclusive thread ids, budget, values at their coordinates, nodal surrogate; distinct = distinct (outcome, assignment trace) classes. "
          "Model latencies: 4 further scenarios (2-D local polynomial grid, f = 1 + max(0,-x_0), 2-4 workers) run in virtual time: a model call on point x is busy for L(x) ticks and the clock only advances when no "
          "thread can run; every latency assignment of the families 'non-initial points take u', 'initial point p takes t_p', 'initial points p, q take 1 and 2 ticks' (p, q over all 13 initial points, "
-         "t_p in {1,2,3}, u in {0,1,2,4}; 628 assignments per scenario) is executed under the default schedule (quick, 2 scenarios) and with every single deviation (thorough, 4 scenarios). "
+         "t_p in {1,2,3}, u in {0,1,2,4}; 628 assignments per scenario) is executed under the default schedule (quick: 2 scenarios; thorough: 4 scenarios) and, in the thorough tier, with every single deviation on top for the first 2 scenarios. "
          "Protocol model: models/surrogate_protocol.pml (Promela; one model step = one scheduling block of the scheduler, labelled thread:operation) is verified by Spin over ALL interleavings "
          "(no deviation bound; deadlock = invalid end state, budget, exactly-once, nobody left running) for 8 (quick) / 13 (thorough) configurations of workers x budget x pool up to 4 workers, and is bound to the code "
          "in both directions: every complete trace of the model is replayed on the real code in follow mode and must produce exactly the model's operations (all 391 + 190 traces of the 2-worker budget-1 "
@@ -15,7 +15,7 @@ CHECKS["C18"] = dict(
          "and a Spin counterexample is a violation only after the real code followed it and failed",
     assumptions=COMMON_ASSUME + ["threads are serialised (sequential consistency); code between two synchronisation operations runs atomically; plain-memory races are delegated to the free-running ThreadSanitizer pass of the same bodies",
                                  "condition variables wake in FIFO order in the quick tier; the thorough tier also enumerates which waiter notify_one wakes; no spurious wake-ups"],
-    jobs=[dict(name="sched", harness="sched_surrogate", variant="asan", quick=["--tier", "quick", "--bound", "2"], thorough=["--tier", "thorough", "--bound", "3"], deadline_quick=240, deadline_thorough=1500),
+    jobs=[dict(name="sched", harness="sched_surrogate", variant="asan", quick=["--tier", "quick", "--bound", "2"], thorough=["--tier", "thorough", "--bound", "3"], deadline_quick=240, deadline_thorough=2700),
           dict(name="spin", harness="sched_conform", variant="asan", python="engines/sched/conform.py", quick=["--tier", "quick"], thorough=["--tier", "thorough"], deadline_quick=240, deadline_thorough=1500),
           dict(name="tsan", harness="sched_surrogate", variant="tsan", quick=["--tier", "quick"], thorough=["--tier", "thorough"], deadline_quick=120, deadline_thorough=300)],
 )
